@@ -590,6 +590,31 @@ func oracleOpts(op M, res any, exec func(M) any) []Finding {
 			out = append(out, Finding{"C18", fmt.Sprintf("a call with its own options (step %d) changed the configuration of an instance: %s -> %s", si, js(a["cfgs"]), js(b["cfgs"]))})
 		}
 	}
+	// constructing an instance changes no instance that exists already; writing through the option
+	// pointers of one instance changes that instance only
+	for si := 1; si < len(steps) && si < len(rl); si++ {
+		sm, _ := steps[si].(M)
+		a, _ := rl[si-1].(M)
+		b, _ := rl[si].(M)
+		if sm == nil || a == nil || b == nil {
+			continue
+		}
+		ca, cb := asList(Normalize(a["cfgs"])), asList(Normalize(b["cfgs"]))
+		switch asStr(sm["s"]) {
+		case "new":
+			for i := range ca {
+				if i < len(cb) && !Equal(ca[i], cb[i]) {
+					out = append(out, Finding{"C18", fmt.Sprintf("constructing instance %d (step %d) changed instance %d: %s -> %s", len(cb)-1, si, i, js(ca[i]), js(cb[i]))})
+				}
+			}
+		case "mutate":
+			for i := range ca {
+				if i < len(cb) && i != int(asInt(sm["i"])) && !Equal(ca[i], cb[i]) {
+					out = append(out, Finding{"C18", fmt.Sprintf("configuring instance %d (step %d) changed instance %d: %s -> %s", int(asInt(sm["i"])), si, i, js(ca[i]), js(cb[i]))})
+				}
+			}
+		}
+	}
 	// the render options of a call override the writer's for that call (observable in SPDX output)
 	for si := 0; si < len(steps) && si < len(rl); si++ {
 		sm, _ := steps[si].(M)
